@@ -13,10 +13,10 @@ THEOREMS = ["C15_scan", "C15_scan_expression", "C15_parse", "C15_lookup", "C15_i
             "C15_to_bytes", "C15_to_text", "C15_assemble", "C15_codegen", "C15_passes"]
 # model-tie modules whose correspondence is part of this property's check (parts of the model its theorems rest on)
 TIES = ['E2E']
-RULE = ("every sequence of length <= 2 (quick; <= 3 thorough) over a 46-fragment alphabet (mnemonics, directives, "
+RULE = ("every sequence of length <= 2 (quick; <= 3 thorough) over a 57-fragment alphabet (mnemonics, every directive, "
         "brackets, quotes, comment openers, operators, numbers, labels, a non-ASCII letter, NUL), joined with and without "
         "spaces; random longer soups; every single-line deletion / duplication / truncation of valid generated programs; "
-        "unconditional and mutual macro recursion, cyclic includes, huge literal loops excluded; each run through the whole "
+        "unconditional, mutual and guarded-but-unbounded macro recursion, cyclic includes, missing includes from odd source names, deep nesting; each run through the whole "
         "assembler under a per-case watchdog and through the composed model; non-trivial: every case")
 PROVED_NOTE = ("proved (fuel sufficiency, fuel a simple function of the input size): the scanner driver and every lexer loop "
                "(both entry points), the parser (all loops and recursive descent, includes bounded by the include depth), name "
@@ -38,7 +38,8 @@ MANIFEST = {
 
 FRAGMENTS = ["lda", "nop", ".db", ".dw 1,", ".macro", ".if", ".for", ".text", ".scope", ".include", ".include_ips", "(", ")",
              "{", "}", "{{", "}}", "'", "'a'", "/*", "*/", ";", "\n", "\t", ",", "#", "0x", "0b", "1", "a", "a:", "=", ":=",
-             "*=", "@=", ".", "x", "+", "-", "~", "<<", "[", "]", "\\", "é", "\x00", "lda.w", ".b", "m(", "else"]
+             "*=", "@=", ".", "x", "+", "-", "~", "<<", "[", "]", "\\", "é", "\x00", "lda.w", ".b", "m(", "else",
+             ".map", ".struct", ".table", ".incbin", ".pointer", ".ascii", '"']
 
 
 def cases(ctx):
